@@ -471,6 +471,7 @@ class Gen:
             self.add_decoys()
         if r2_twin(self) < cfg.get("p_twin", 0.0):
             self.add_twin()
+        self.rebind_prefix_on_components()
         self.spell_defaults()
         ss = SchemaSet(self.files, self.files[0].filename, None, self.features)
         if cfg["wsdl"]:
@@ -570,6 +571,51 @@ class Gen:
                 f.imports.insert(f.imports.index(a.idx) + 1, bidx)
                 f.prefixes[bidx] = next(p for p in avail if p not in f.prefixes.values() and p != f.xs_prefix)
         self.features.add("twin-file")
+
+    def rebind_prefix_on_components(self):
+        """Lexical variation of prefix bindings inside one file: a component binds, on its own start tag, a prefix that the schema
+        element binds to another namespace, and uses it for its own references. Before and after that component the outer binding
+        holds."""
+        import random
+        prob = self.cfg.get("p_component_rebinds_prefix", 0.0)
+        if not prob:
+            return
+        r2 = random.Random("rebind:" + "|".join(c.name.xml for f in self.files for c in f.components))
+
+        def refs_of(c):
+            out = []
+            for attr in ("base", "type"):
+                t = getattr(c, attr, None)
+                if t is not None:
+                    out.append(t)
+            content = getattr(c, "content", None)
+            if content is not None:
+                def walk(g):
+                    for it in g.items:
+                        if isinstance(it, Group):
+                            walk(it)
+                        else:
+                            out.append(it.ref if it.kind == "ref" else it.type)
+                if content.group is not None:
+                    walk(content.group)
+                out.extend(a.type for a in content.attrs)
+            return [t for t in out if not t.builtin]
+
+        for f in self.files:
+            if f.nested_xmlns or r2.random() >= prob:
+                continue
+            foreign = [k for k, p in f.prefixes.items() if k != f.idx and p]
+            if len(foreign) < 2:
+                continue
+            for c in f.components:
+                used = {t.file for t in refs_of(c)}
+                k2s = [k for k in foreign if k in used]
+                k1s = [k for k in foreign if k not in used]
+                if k2s and k1s:
+                    k2, k1 = r2.choice(k2s), r2.choice(k1s)
+                    c.prefix_override = {"bind": k2, "as": f.prefixes[k1], "hides": k1}
+                    self.features.add("component-rebinds-a-schema-level-prefix")
+                    break
 
     def spell_defaults(self):
         """XSD lexical variation: write defaults out (minOccurs="1" maxOccurs="1" on elements and groups, use="optional" on
@@ -700,8 +746,13 @@ class Gen:
             r3 = _random.Random("op-name:" + op_name.xml + str(len(w.operations)))
             if r3.random() < self.cfg.get("p_prelude_op_name", 0.12):
                 # operations named like prelude / reserved type names (Default, Option, ...): envelope and method names derive from it
-                word = r3.choice(["default", "option", "string", "vec", "rc", "result", "box", "self"])
-                cand = Name((word,), r3.choice(["pascal", "snake", "upper", "camel"]))
+                word = r3.choice(["default", "option", "string", "vec", "rc", "result", "box", "self", ("c", "to", "f"), ("e", "mail"),
+                                  ("x", "coordinate"), ("get", "a", "b")])
+                if isinstance(word, tuple):
+                    # single-letter words: case conversion is not idempotent for them (c_to_f -> CToF -> Ctof)
+                    cand = Name(word, r3.choice(["snake", "kebab", "dotted"]))
+                else:
+                    cand = Name((word,), r3.choice(["pascal", "snake", "upper", "camel"]))
                 if cand.snake not in op_snakes and cand.pascal not in op_pascals:
                     op_snakes.add(cand.snake)
                     op_pascals.add(cand.pascal)
